@@ -851,6 +851,22 @@ impl<'s, const M: usize> Exec<'s, M> {
         if self.viol.is_empty() && (i % every == every - 1) {
             self.checkpoint();
         }
+        if !self.viol.is_empty() && self.opts.focus == Some("C02") && !self.viol.iter().any(|v| v.prop == "C02") {
+            // a memory-safety violation of another property stops the run; before it does, see
+            // whether it also changed the bytes of a live block (that is C02's own statement)
+            let mut bad = None;
+            for (&a, b) in &self.blocks {
+                if self.chunk_of(a, b.size).is_some() {
+                    if let Some(k) = Self::bytes_match(a, b.size, &b.expect) {
+                        bad = Some((b.size, k));
+                        break;
+                    }
+                }
+            }
+            if let Some((size, k)) = bad {
+                self.violate("C02", "live-block-changed", "", format!("byte {} of a live {}-byte block changed (seen while stopping for {})", k, size, self.viol[0].sig));
+            }
+        }
         self.pos < script.ops.len() && self.viol.is_empty()
     }
 
